@@ -12,8 +12,14 @@ use std::borrow::Cow;
 use std::convert::Infallible;
 use std::fmt::Display;
 
-const KEYWORDS: [&str; 9] = [
-    "use", "mod", "const", "type", "pub", "enum", "struct", "impl", "trait",
+/// All strict and reserved keywords (a field or variable cannot be named like that) an ASN.1
+/// identifier - which starts with a lowercase letter - can collide with
+const KEYWORDS: [&str; 50] = [
+    "use", "mod", "const", "type", "pub", "enum", "struct", "impl", "trait", "as", "break",
+    "continue", "crate", "else", "extern", "false", "fn", "for", "if", "in", "let", "loop", "match",
+    "move", "mut", "ref", "return", "self", "static", "super", "true", "unsafe", "where", "while",
+    "async", "await", "dyn", "abstract", "become", "box", "do", "final", "macro", "override",
+    "priv", "typeof", "unsized", "virtual", "yield", "try",
 ];
 
 pub trait GeneratorSupplement<T> {
